@@ -382,7 +382,55 @@ def match_finding(findings, v):
     return None
 
 
+TRACE_SPEC = {'C01': 'Trace_Api', 'C02': 'Trace_Api', 'C03': 'Trace_Api', 'C04': 'Trace_Api', 'C15': 'Trace_Api', 'C05': 'Trace_CheckDigit',
+              'C08': 'Trace_Convert', 'C09': 'Trace_Dispatch', 'C12': 'Trace_Getters', 'C17': 'Trace_Typo', 'C18': 'Trace_Wsgi', 'C16': 'Trace_GS1'}
+
+
+def replay(prop, path):
+    """./check Cxx --replay <file>: shows the recorded violation, lets TLC judge the recorded micro-trace again and, for
+    sessions on a single module, calls the library again with the recorded input to show what it does now."""
+    with open(path) as fh:
+        doc = json.load(fh)
+    print('replay of %s: clause %s, module %s, site %s' % (path, doc.get('clause'), doc.get('module'), doc.get('site')))
+    print('witness: %r' % (doc.get('witness'),))
+    print('detail: %s' % json.dumps(doc.get('detail'), ensure_ascii=True)[:1500])
+    mt = doc.get('micro_trace') or []
+    rc = 0
+    spec = TRACE_SPEC.get(prop)
+    if mt and spec:
+        work = lib.workdir(prop + '_replay')
+        tp = os.path.join(work, 'replay.ndjson')
+        with open(tp, 'w') as fh:
+            for e in mt:
+                fh.write(json.dumps(e) + '\n')
+        r = tlc.run(spec, workdir=work, env={'TRACE_FILE': tp}, workers=1)
+        rej = [ln for ln in r.prints if 'REJ' in ln[:10]]
+        print('TLC (%s) on the recorded micro-trace: %s' % (spec, '; '.join(rej) if rej else 'accepted'))
+        if rej:
+            rc = 1
+        shutil.rmtree(work, ignore_errors=True)
+    mod, w = doc.get('module'), doc.get('witness')
+    if isinstance(mod, str) and isinstance(w, str) and any(mod == n for n, _ in lib.modules()):
+        m = lib.module(mod)
+        for fn in ('compact', 'validate', 'is_valid', 'format'):
+            if hasattr(m, fn):
+                r = lib.call(getattr(m, fn), w)
+                print('now: %s.%s(%r) -> %s' % (mod, fn, w, (lib.from_cps(r['v']) if r['t'] == 'str' else (r['b'] if r['t'] == 'bool' else r['j'])) if r['k'] == 'ret'
+                                                 else 'raises %s at %s' % (r['cls'], r['site'])))
+    if rc:
+        print('VIOLATION property=%s replay=%s' % (prop, path))
+    return rc
+
+
 def main(fn, prop):
+    if os.environ.get('VERIF_REPLAY'):
+        try:
+            sys.exit(replay(prop, os.environ['VERIF_REPLAY']))
+        except SystemExit:
+            raise
+        except BaseException:
+            traceback.print_exc()
+            sys.exit(2)
     try:
         rc = fn()
     except MachineryError as e:
